@@ -493,9 +493,11 @@ def _nonascii_prefix_pruning(case, violation):
             prefixes.append(lit.rsplit("/", 1)[0] if not lit.endswith("/") else lit.rstrip("/"))
     if not prefixes:
         return False
+    # with -i the literal prefix is compared without regard to case
+    fold = (lambda x: x.casefold()) if o.get("i") else (lambda x: x)
     for m in violation["missed"]:
         mu = m.encode("latin-1").decode("utf-8", "replace")
-        if not any(mu.startswith(pre + "/") for pre in prefixes):
+        if not any(fold(mu).startswith(fold(pre) + "/") for pre in prefixes):
             return False
     return True
 
